@@ -43,6 +43,7 @@ const (
 	// ServiceValue supports
 	// Value
 	// &Value
+	// *Value
 	// my/import.Value
 	// "my/import".GlobalVar.Field
 	// &"my/import".GlobalVar.Field
@@ -50,7 +51,7 @@ const (
 	// &MyStruct{}
 	// my/import.MyStruct{}
 	// &my/import.MyStruct{}
-	ServiceValue = `((?P<v1>(?P<ptr>\&)?((?P<import>` + Import + `)\.)?(?P<value>` + GoToken + `(\.` + GoToken + `)*` + `))` +
+	ServiceValue = `((?P<v1>(?P<ptr>\&|\*)?((?P<import>` + Import + `)\.)?(?P<value>` + GoToken + `(\.` + GoToken + `)*` + `))` +
 		`|(?P<v2>(?P<ptr2>\&)?((?P<import2>` + Import + `)\.)?(?P<struct2>` + GoToken + `)\{\}))`
 	ServiceConstructor = GoFunc
 	ServiceCallName    = GoToken
